@@ -24,4 +24,4 @@ def suites(tier):
     for cfg in product(bytes=[0], state=[0, 1]):
         cfg.update(nmin=0, nmax=3 if tier == "quick" else 4)
         jobs.append(dict(id=jid("strip", cfg), func="zzH_C11_strip", cfg=cfg))
-    return [dict(SRC, name="src", jobs=jobs)]
+    return [src_suite("src", jobs)]
